@@ -670,24 +670,15 @@ def oracle_c12(rr: Any, spec: Dict[str, Any]) -> "tuple[List[Violation], int]":
 
 
 def _only_uncached_inversions(spec: Dict[str, Any], open_seq: List[str], close_seq: List[str]) -> bool:
-    """Mechanism classifier for F8: every inverted pair involves an earlier-opened member
-    that lives inside an un-cached sub-graph (resolved by a sub-context)."""
-    if sorted(open_seq) != sorted(close_seq) or len(set(open_seq)) != len(open_seq):
-        # duplicates (dep opened twice): fall back to positional reasoning on first occurrences
-        pass
-    pos_o = {}
-    for i, n in enumerate(open_seq):
-        pos_o.setdefault(n, i)
-    pos_c = {}
-    for i, n in enumerate(close_seq):
-        pos_c.setdefault(n, i)
-    names = list(pos_o)
-    found = False
-    for a in names:
-        for b in names:
-            if pos_o[a] < pos_o[b] and pos_c.get(a, 0) < pos_c.get(b, 0):
-                # a opened before b but also closed before b: inversion
-                found = True
-                if not (_in_uncached(spec, a) or _in_uncached(spec, b)):
-                    return False
-    return found
+    """Mechanism classifier for F8: every inverted pair has a member inside an un-cached sub-graph
+    (a dependency that is use_cache=False or below such a node, i.e. opened/closed by a resolver
+    sub-context).  Equivalently: after removing those dependencies from both sequences, what is
+    left (the main context's own dependencies) is closed in exact reverse order of opening.
+    Robust against dependencies that are opened several times (un-cached ones are)."""
+    if sorted(open_seq) != sorted(close_seq):
+        return False
+    main_open = [n for n in open_seq if not _in_uncached(spec, n)]
+    main_close = [n for n in close_seq if not _in_uncached(spec, n)]
+    if len(main_open) == len(open_seq):
+        return False  # no un-cached sub-graph involved at all
+    return main_close == list(reversed(main_open))
